@@ -241,10 +241,18 @@ def publicKeyDer (k : Key) : Bytes := spkiPrefix ++ [0x04] ++ k.x ++ k.y
 
 def utf8 (s : String) : Bytes := s.toUTF8.toList
 
+/-- the member names of the attestation object as bytes (written out: string literals do not reduce in the kernel) -/
+def kFmt : Bytes := [0x66, 0x6d, 0x74]                                   -- "fmt"
+def kNone : Bytes := [0x6e, 0x6f, 0x6e, 0x65]                            -- "none"
+def kAttStmt : Bytes := [0x61, 0x74, 0x74, 0x53, 0x74, 0x6d, 0x74]       -- "attStmt"
+def kAuthData : Bytes := [0x61, 0x75, 0x74, 0x68, 0x44, 0x61, 0x74, 0x61] -- "authData"
+
+def attestationItem (authData : Bytes) : Cbor.Item :=
+  .map [(.text kFmt, .text kNone), (.text kAttStmt, .map []), (.text kAuthData, .bytes authData)]
+
 /-- the "none" attestation object: `{"fmt": "none", "attStmt": {}, "authData": h'…'}` -/
 def attestationObject (authData : Bytes) : Bytes :=
-  Cbor.encode (.map [(.text (utf8 "fmt"), .text (utf8 "none")), (.text (utf8 "attStmt"), .map []),
-    (.text (utf8 "authData"), .bytes authData)])
+  Cbor.encode (attestationItem authData)
 
 structure RegisterResp where
   id : String
